@@ -246,6 +246,12 @@ func (w *World) CheckLifecycle(out *Outcome, o *Obs) []Violation {
 				vs = append(vs, v("C05", "aps-not-exactly-once", i.ID, fmt.Sprintf("created component %s has AfterPropertiesSet but %d events", i.ID, len(l.aps))))
 			}
 			for _, pr := range w.P.Procs {
+				if t.Proc {
+					// a component that is a processor itself is created while the processor list is
+					// being put together: only the processors in front of it are at work by then
+					// (at most once each, see above)
+					break
+				}
 				if len(l.before[pr.ID]) != 1 || len(l.after[pr.ID]) != 1 {
 					vs = append(vs, v("C05", "processor-callbacks-not-exactly-once", i.ID, fmt.Sprintf("created component %s: processor %s saw %d before- and %d after-initialization callbacks", i.ID, pr.ID, len(l.before[pr.ID]), len(l.after[pr.ID]))))
 				}
@@ -474,6 +480,9 @@ func (w *World) CheckOrdering(o *Obs) []Violation {
 	for _, k := range sdl.SortedKeys(seqs) {
 		if msg := CheckContract(seqs[k]); msg != "" {
 			vs = append(vs, v("C12", "processor-order-violates-contract", strings.Fields(k)[0], fmt.Sprintf("%s-initialization callbacks for %s: %s; sequence %v", strings.Fields(k)[0], strings.Fields(k)[1], msg, ids(seqs[k]))))
+		}
+		if id := w.instByName(strings.Fields(k)[1]); id != "" && w.Types[w.Insts[id].Type].Proc {
+			continue // created while the processor list is being put together
 		}
 		if o.OK() && len(seqs[k]) != len(procs) && !w.hasSubst() {
 			vs = append(vs, v("C12", "processor-not-exactly-once", strings.Fields(k)[0], fmt.Sprintf("%s: %d callbacks for %d processors: %v", k, len(seqs[k]), len(procs), ids(seqs[k]))))
